@@ -54,6 +54,9 @@ var registry = map[string]*Check{}
 // Register adds a check (called from init functions of package props).
 func Register(c *Check) { registry[c.ID] = c }
 
+// Lookup returns a registered check.
+func Lookup(id string) *Check { return registry[id] }
+
 // IDs lists registered property ids.
 func IDs() []string {
 	var r []string
